@@ -364,6 +364,10 @@ func (g *G) primitive(n *spec.Node) {
 	}
 	if g.O.Coercers && n.Coercer == nil && n.Layout == "" && g.pct(10) {
 		n.Coercer = &spec.CoercerSpec{Mark: n.Witness}
+		if g.pct(25) {
+			// a coercer that accepts nothing: every present input, also one that already has the destination's type, is un-coercible
+			n.Coercer = &spec.CoercerSpec{Fail: true}
+		}
 	}
 	g.posts(n)
 }
